@@ -30,6 +30,15 @@ func CheckC19(e *Env) (int, error) {
 	// a third configuration: assembly at GOAMD64=v3 takes the assembly side
 	// of the comparison in every second round
 	binV3, v3State := e.buildV3()
+	// a fourth: the assembly build as the race detector's instrumentation
+	// leaves it (-race is a build configuration that selects the assembly
+	// too; struct layouts and build tags may differ there)
+	binRB, rbErr := e.Build(simrunAsmRaceBuild)
+	rbState := "ran"
+	if rbErr != nil {
+		Logf("the -race build of simrun failed: skipped\n%v", rbErr)
+		binRB, rbState = "", "skipped: does not build with -race"
+	}
 	a := newAgg()
 	budget := budgetSeconds(e.Tier, 40, 840)
 	type key struct {
@@ -49,7 +58,8 @@ func CheckC19(e *Env) (int, error) {
 		poolPer, signPer, lookPer = 1000, 50, 6000
 	}
 	for round := 0; ; round++ {
-		if round > 0 && time.Since(start) > budget {
+		// at least one round per configuration of the assembly side
+		if round >= 4 && time.Since(start) > budget {
 			break
 		}
 		var jobs []*Job
@@ -58,16 +68,23 @@ func CheckC19(e *Env) (int, error) {
 		// reported absent (a tree may pick routines at run time)
 		binA, asmVar := binA, "asm"
 		var asmEnv []string
+		poolN, signN, lookN := poolPer, signPer, lookPer
 		switch {
-		case binV3 != "" && round%2 == 1:
+		case binV3 != "" && round%4 == 1:
 			binA, asmVar = binV3, simrunAsmV3.Name
 		case round%4 == 2:
 			asmVar, asmEnv = asmCPUOff, cpuOffEnv
+		case binRB != "" && round%4 == 3:
+			// several times slower: a fifth of the runs (the purego side runs
+			// the same indices)
+			binA, asmVar, asmEnv = binRB, simrunAsmRaceBuild.Name, raceBuildEnv
+			poolN, signN, lookN = (poolPer+4)/5, (signPer+4)/5, (lookPer+4)/5
 		}
 		for k := 0; k < 8; k++ {
 			pf := (round*8 + k) * poolPer
 			sf := (round*8 + k) * signPer
 			lf := (round*8 + k) * lookPer
+			poolPer, signPer, lookPer := poolN, signN, lookN
 			var extra []string
 			if round == 0 && k == 0 {
 				extra = []string{"-trace"}
@@ -145,6 +162,8 @@ func CheckC19(e *Env) (int, error) {
 			sideBin, sideVar = binV3, simrunAsmV3.Name
 		case asmCPUOff:
 			sideVar = asmCPUOff
+		case simrunAsmRaceBuild.Name:
+			sideBin, sideVar = binRB, simrunAsmRaceBuild.Name
 		}
 		path, v, err := e.reportDivergence(sideBin, sideVar, binP, best.world, best.idx, jobFrom[best], digA[best], digP[best])
 		if err != nil {
@@ -168,6 +187,9 @@ func CheckC19(e *Env) (int, error) {
 		}
 		if r.Variant == asmCPUOff {
 			return binA, asmCPUOff
+		}
+		if r.Variant == simrunAsmRaceBuild.Name {
+			return binRB, simrunAsmRaceBuild.Name
 		}
 		return binA, "asm"
 	}, budgetSeconds(e.Tier, 60, 300))
@@ -202,7 +224,8 @@ func CheckC19(e *Env) (int, error) {
 		}),
 		"history_pairs_compared":              pairs,
 		"cpu_features_off_configuration":      "in every fourth round the assembly side runs with GODEBUG=cpu.all=off (a tree may pick AVX2/BMI2/... routines at run time; their fallbacks are the assembly build too)",
-		"goamd64_v3_configuration":            v3State + ": in every second round the assembly side of the comparison is built with GOAMD64=v3 (a tree may select other assembly by microarchitecture level; 'without the purego tag' covers that build too)",
+		"race_build_configuration":            rbState + ": in every fourth round the assembly side is the binary built with -race (a build configuration that selects the assembly as well; build tags and struct layouts may differ there); a fifth of the runs, the race detector's own reports are not this check's business",
+		"goamd64_v3_configuration":            v3State + ": in every fourth round the assembly side of the comparison is built with GOAMD64=v3 (a tree may select other assembly by microarchitecture level; 'without the purego tag' covers that build too)",
 		"diverging_pairs":                     len(diverged),
 		"operations_executed":                 a.Ops,
 		"constant_time_lookup_windows_driven": cov,
@@ -238,6 +261,12 @@ const asmCPUOff = "asm-cpuoff"
 
 var cpuOffEnv = []string{"GODEBUG=cpu.all=off"}
 
+// simrunAsmRaceBuild is the assembly build with the race detector's
+// instrumentation.  Reports of the detector do not decide anything here
+// (single-task worlds; C20 owns them): exitcode=0.
+var simrunAsmRaceBuild = Variant{Name: "asm-racebuild", Pkg: "./cmd/simrun", Tags: "verif", Race: true}
+var raceBuildEnv = []string{"GORACE=exitcode=0"}
+
 func (e *Env) divergenceTrial(binA, binP string, rf *replay.File, t Tape, tag string) (bool, *kernel.Result, *kernel.Result) {
 	av := strings.TrimSuffix(rf.Variant, "+purego")
 	ra, _, err := e.replayOnce(binA, av, rf, t, nil, tag+"a")
@@ -272,6 +301,9 @@ func (e *Env) reportDivergence(binA, asmVar, binP, world string, idx, jobFrom in
 	j := &Job{Bin: binA, Variant: asmVar, World: world, Prop: "C19", From: idx, N: 1, Extra: []string{"-tape"}}
 	if asmVar == asmCPUOff {
 		j.Env = cpuOffEnv
+	}
+	if asmVar == simrunAsmRaceBuild.Name {
+		j.Env = raceBuildEnv
 	}
 	e.runJob(j)
 	if j.Err != nil || len(j.Results) != 1 {
